@@ -9,7 +9,7 @@ def reuse(name, src, defs, shards=4, stride=None, quick=True, std="c++20"):
                 shards={"quick": shards, "thorough": 16}, only_kinds=MEM, args=args if quick else [])
 
 
-def clone(prop, stride_q, stride_t=1, pick=None):
+def clone(prop, stride_q, stride_t=1, pick=None, flavour=None):
     """re-run another property's ASan workloads for their sanitizer/crash/lifetime records only"""
     import importlib.util, os
     here = os.path.dirname(os.path.abspath(__file__))
@@ -18,7 +18,7 @@ def clone(prop, stride_q, stride_t=1, pick=None):
     spec.loader.exec_module(mod)
     out = []
     for u in mod.P["units"]:
-        fq = [f for f in u.flavours.get("quick", []) if f.startswith("asan")]
+        fq = [flavour] if flavour else [f for f in u.flavours.get("quick", []) if f.startswith("asan")]
         if not fq or u.only_kinds or u.name.count("probe") or (pick and not pick(u)):
             continue
         base_args = u.args if not isinstance(u.args, dict) else []
@@ -63,7 +63,11 @@ P = dict(
         reuse("C02_cstr_char", "harness/C18_str.cpp", ["-DVF_WIDE=0"], stride=4, shards=8),
         reuse("C02_cmem_char", "harness/C18_mem.cpp", ["-DVF_WIDE=0"], stride=4),
     ] + clone("C06", 4) + clone("C09", 4, 2, pick=lambda u: u.name.endswith(("_p0", "_tracked", "fmset")))
-    + clone("C10", 8, 2) + clone("C14", 4, 2, pick=lambda u: u.name.endswith(("_0", "_2"))) + clone("C17", 4, 2, pick=lambda u: u.name.endswith(("_g0", "_g2"))),
+    + clone("C10", 8, 2) + clone("C14", 4, 2, pick=lambda u: u.name.endswith(("_0", "_2"))) + clone("C17", 4, 2, pick=lambda u: u.name.endswith(("_g0", "_g2")))
+    # (e) the constexpr kernels of C13 (containers, strings, views, ~80 algorithms, charconv, chrono): GCC's constant evaluator is an
+    # undefined-behaviour interpreter, so UB inside a kernel makes the unit fail to compile (compile-failure record); the run-time half runs under ASan
+    + clone("C13", 1, 1, pick=lambda u: "kern" in u.name, flavour="asan-cc")
+    + clone("C19", 8, 2, pick=lambda u: u.name.endswith("_int32_p0") or u.name.endswith("span_int")),
     floor={"quick": 200000, "thorough": 2000000},
     assumptions=["gcc 12 ASan/UBSan and valgrind 3.19 memcheck report the accesses they are documented to report", "the malloc-family interposers in the harness binary see every allocation of the process (static glibc symbols __libc_malloc etc. forward the real work)"],
 )
